@@ -18,7 +18,7 @@ def load_corpus(pid):
 
 
 def run_sched_property(ck, pid, oracle, pfile, nquick, nthorough, analyzer=False, extra=None):
-    ck.build_theorems(pfile, deps=["SchedRun.vo", "SchedThms.vo", "SchedThms2.vo", "SchedMono.vo", "NewLtf.vo", "SchedTerm.vo"])
+    ck.build_theorems(pfile, deps=["SchedRun.vo", "SchedThms.vo", "SchedThms2.vo", "SchedMono.vo", "SchedMonoVec.vo", "NewLtf.vo", "SchedTerm.vo"])
     n = nquick if ck.tier == "quick" else nthorough
     cfgs = [dict(c, family="corpus") for c in load_corpus(pid)]
     while len(cfgs) < n:
